@@ -191,7 +191,7 @@ MANIFEST_TEXT["C09"] = {
 
 PLANS["C11"] = P(
     "model_checking",
-    ["hist.expect", "issue.history", "issue.exact", "issue.refs", "issue.accept", "issue.refuse.path", "issue.refuse.reserved", "issue.refuse.nonobject",
+    ["hist.expect", "issue.history", "issue.exact", "issue.refs", "issue.decoys", "issue.accept", "issue.refuse.path", "issue.refuse.reserved", "issue.refuse.nonobject",
      "issue.shape", "present.ok", "present.exact", "present.jwt", "present.shape", "present.kb", "present.kb.none", "verify.accept", "verify.view"],
     [{"module": "MC_hist", "quick": "MC_hist_quick.cfg", "thorough": "MC_hist.cfg", "timeout": {"quick": 120, "thorough": 600}},
      {"module": "MC_scratch", "quick": "MC_scratch_quick.cfg", "thorough": "MC_scratch.cfg", "timeout": {"quick": 120, "thorough": 600}}],
@@ -216,8 +216,8 @@ PLANS["C13"] = P(
     "model_checking",
     ["issue.refuse.reserved", "issue.accept", "hist.expect"],
     [{"module": "MC_reserved", "quick": "MC_reserved_quick.cfg", "thorough": "MC_reserved.cfg", "timeout": {"quick": 300, "thorough": 900}}],
-    [{"driver": "replay", "scn": "MC_reserved", "args": {"n": 800, "matrix": 1}}, {"driver": "rich", "args": {"n": 600, "depth": 5, "only": "issue", "plant": 0.6}}],
-    [{"driver": "replay", "scn": "MC_reserved", "args": {"n": 100000, "matrix": 1}}, {"driver": "rich", "args": {"n": 30000, "depth": 8, "only": "issue", "plant": 0.6}}],
+    [{"driver": "replay", "scn": "MC_reserved", "args": {"n": 800, "matrix": 1}}, {"driver": "rich", "args": {"n": 600, "depth": 5, "only": "issue", "plant": 0.6}}, {"driver": "history", "args": {"random": 150, "only": "issuer"}}],
+    [{"driver": "replay", "scn": "MC_reserved", "args": {"n": 100000, "matrix": 1}}, {"driver": "rich", "args": {"n": 30000, "depth": 8, "only": "issue", "plant": 0.6}}, {"driver": "history", "args": {"random": 3000, "only": "issuer"}}],
     required={"issue.refuse.reserved": 500, "issue.accept": 300, "hist.expect": 500},
     nontrivial_event="Issue",
     rule="cases = Issue calls: a member named _sd or ... planted at every object position (root, nested, inside arrays, inside values that become hidden, under iat) of every tree of "
@@ -263,8 +263,8 @@ PLANS["C12"] = P(
     "model_checking",
     ["issue.decoys", "issue.refs", "issue.exact", "present.exact", "verify.view", "verify.accept", "order.leak"],
     [RT],
-    [REPLAY_RT_Q, {"driver": "rich", "args": {"n": 500, "depth": 5, "arbsel": 0, "decoy": 1}}, {"driver": "rich", "args": {"n": 700, "depth": 4, "only": "issue"}}],
-    [REPLAY_RT_T, {"driver": "rich", "args": {"n": 10000, "depth": 8, "arbsel": 0, "decoy": 1}}, {"driver": "rich", "args": {"n": 30000, "depth": 6, "only": "issue"}}],
+    [REPLAY_RT_Q, {"driver": "rich", "args": {"n": 500, "depth": 5, "arbsel": 0, "decoy": 1}}, {"driver": "rich", "args": {"n": 700, "depth": 4, "only": "issue"}}, {"driver": "history", "args": {"random": 150, "only": "issuer"}}],
+    [REPLAY_RT_T, {"driver": "rich", "args": {"n": 10000, "depth": 8, "arbsel": 0, "decoy": 1}}, {"driver": "rich", "args": {"n": 30000, "depth": 6, "only": "issue"}}, {"driver": "history", "args": {"random": 3000, "only": "issuer"}}],
     required={"issue.decoys": 1000, "verify.view": 500},
     aggregate={"order.leak": _order_leak},
     nontrivial_event="Issue",
